@@ -1032,4 +1032,6 @@ def run(chk, tier):
     from props import c14, c04
     chk.guard('C14.a', lambda: c14.rule_escapes(chk, prog, tier))       # the scanner invariant decodechar's assertions rely on
     chk.guard('C14.c', lambda: c14.rule_utf8dec(chk, prog, tier))       # ... and the encoders' assert(0): the decoder hands on scalar values only
+    from props import c12
+    chk.guard('C12.c', lambda: c12.rule_directives(chk, prog, tier))     # ill-formed directives end in a diagnostic: the expansion's assertions (a `#` whose operand is no parameter) rely on define() rejecting them
     chk.guard('C04.c', lambda: c04.rule_traps(chk, prog, tier))         # no trapping host arithmetic in the folder
